@@ -64,6 +64,10 @@ fn profile() -> Profile {
         // time passes between operations (identically in all twins): keep-alive traffic interleaves
         keepalive: vec![0, 0, 4, 30],
         w_advance: 2,
+        // whether a planned smaller Maximum Packet Size is applied depends on what the broker model
+        // knows at run time (a cancelled request makes it withhold the limit): not comparable
+        // between a run and its twins
+        shrink_mps_pct: 0,
         ..Profile::default()
     }
 }
